@@ -9,7 +9,7 @@ PROP = dict(
     rule="11 entry points in rotation (Rcb/Rib 2D+3D, Hilbert 2D+3D, ZCurve 2D+3D, KMeans, MultiJagged, the tools' dual graph), each "
          "case run under rayon pools 1,2,3,4,8,16 twice (12 runs) on integer-valued coordinates and weights (7 point families, 6 "
          "weight families, random mixed meshes); 3/4 of the inputs of the OBB-based algorithms have a power-of-two point count "
-         "(the exact_obb premise); 1/40 of the inputs have >= 8192 points so that rayon splits Rcb's fold; all 12 outputs are "
+         "(the exact_obb premise); 1/6 of the Rcb/Rib inputs (1/60 of the others) have 8192..20000 points, 2/3 of them with pairwise distinct first coordinates in random order, so that rayon splits Rcb's fold into 2 resp. 4 chunks (large outputs are sent to Coq as differences from the first run); all 12 outputs are "
          "compared in Coq (MultiJagged up to renaming); distinct = distinct case index; non-trivial = at least 4 elements",
     class_names={0: "rcb2", 1: "rcb3", 2: "rib2", 3: "rib3", 4: "hilbert2", 5: "hilbert3", 6: "zcurve2", 7: "zcurve3",
                  8: "kmeans2", 9: "multijagged2", 10: "dual"},
